@@ -285,6 +285,15 @@ class Table:
             args = (c, args[2], args[1]) if flipped else (c, args[1], args[2])
             if isinstance(args[1], RF) and isinstance(args[2], RF) and self.equal(args[1], args[2]):
                 return args[1]
+            # a selection nested in an arm of a selection on the same test is already decided there:
+            # guard(c, a, guard(c, x, y)) is guard(c, a, y); guard(c, guard(c, x, y), b) is guard(c, x, b)
+            for k_ in (1, 2):
+                if isinstance(args[k_], RF) and args[k_].single_atom() is not None:
+                    in_ = self.atoms[args[k_].single_atom()]
+                    if in_.head == 'guard' and len(in_.args) == 3 and isinstance(in_.args[0], RF) and self.equal(in_.args[0], c):
+                        args = (c, in_.args[1], args[2]) if k_ == 1 else (c, args[1], in_.args[2])
+            if isinstance(args[1], RF) and isinstance(args[2], RF) and self.equal(args[1], args[2]):
+                return args[1]
             ca_ = c.single_atom()
             if ca_ is not None and self.atoms[ca_].head == 'const' and self.atoms[ca_].args[0] in ('True', 'False') and \
                     isinstance(args[1], RF) and isinstance(args[2], RF):
@@ -839,6 +848,13 @@ class Conv:
             a = self.expr(n.left)
             b = self.expr(n.right)
             if isinstance(n.op, ast.Add):
+                aa_, ba_ = a.single_atom(), b.single_atom()
+                if aa_ is not None and ba_ is not None and t.atoms[aa_].head == 'tuple' and t.atoms[ba_].head == 'tuple' and \
+                        isinstance(n.left, ast.Tuple) or (aa_ is not None and ba_ is not None and t.atoms[aa_].head == 'tuple' and
+                                                          t.atoms[ba_].head == 'tuple' and isinstance(n.right, ast.Tuple)):
+                    # (a,) + (b, c) is (a, b, c): concatenation of tuples written as such (lists share the atom but
+                    # `[a] + [b]` is left to the join forms)
+                    return t.atom('tuple', tuple(t.atoms[aa_].args) + tuple(t.atoms[ba_].args))
                 return a + b
             if isinstance(n.op, ast.Sub):
                 return a - b
@@ -1201,7 +1217,9 @@ class Conv:
                 if e < 0:
                     return False
                 at = t.atoms[a]
-                if at.head == 'call' and at.extra and at.extra[0] in ('fn:len', 'fn:int', 'fn:searchsorted', 'fn:argmax', 'fn:argmin'):
+                if at.head in ('call', 'mcall') and at.extra and at.extra[0] in (
+                        'fn:len', 'fn:int', 'fn:searchsorted', 'fn:argmax', 'fn:argmin',
+                        'fn:mpi.get_rank', 'fn:mpi.nprocs', 'fn:get_rank', 'fn:nprocs'):     # rank and size of the communicator
                     continue
                 if at.head == 'name' and isinstance(at.args[0], str) and at.args[0].startswith('@i'):
                     continue
